@@ -165,6 +165,11 @@ func (x *Exec) atReturn(fr *Frame, st *State, rv []Val) {
 		if len(props) == 0 {
 			props = c.Props
 		}
+		if strings.HasPrefix(en.Label, "assumed-") {
+			// used by callers, not proved on this body: listed among the assumptions of every evidence file
+			x.note("assumed postcondition of " + c.Key + " (not proved on its body): " + en.Text)
+			continue
+		}
 		n := parseSpecExpr(en.Text)
 		if n.op == "<==>" && !en.MustFail {
 			// one obligation per direction: much cheaper for the solvers
